@@ -54,6 +54,26 @@ SameCells(dc, dx, n, sc, ic, sx, ix) ==
   \A k \in 0..(n - 1), i \in 0..2 : Addr(dc, k, i, sc, ic) = Addr(dx, k, i, sx, ix)
 AliasModes(r) == {"none"} \cup {m \in {"a", "b"} : Aliasable(r.c, r[m])}
 
+(* ---- two inputs that are the SAME array: when both inputs live in memory the caller may pass the same pointer for a and b
+   (a * a, a + a, a constant that is element 0 of the other operand, ...), with equal, nearly equal or unrelated strides /
+   offset arrays.  Both are only read.  The arena the caller has to provide then ends at the larger of the two footprints, and
+   a cell designated by both operands holds ONE value: coefficient i of element k of a and coefficient ii of element kk of b
+   are the same word whenever their positions coincide.  The result is still Expected on the k-th operands. *)
+Max16(x, y) == IF x >= y THEN x ELSE y
+Shareable(da, db) == InMem(da) /\ InMem(db)
+SharedExtent(da, db, n, sa, ia, sb, ib) == Max16(Extent(da, n, sa, ia), Extent(db, n, sb, ib))
+SharedAgree(da, db, n, sa, ia, sb, ib, va, vb) ==
+  \A k, kk \in 0..(n - 1) : \A i \in 0..(Width(da) - 1), ii \in 0..(Width(db) - 1) :
+     Addr(da, k, i, sa, ia) = Addr(db, kk, ii, sb, ib) => va[k + 1][i + 1] = vb[kk + 1][ii + 1]
+
+(* ---- per-element offset arrays that LOOK like a packed / uniform array on some lanes only.  idx agrees with the uniform array
+   base + k * st on the lanes S (e.g. its first and last entry are (n - 1) * st apart) and is something else -- a permutation
+   of the remaining uniform values, far positions -- on the others.  Addr reads idx[k + 1] for element k whatever the other
+   entries are: nothing about an offset array may be inferred from some of its entries. *)
+AgreesOn(idx, S, base, st) == \A k \in S : idx[k + 1] = base + (k * st)
+LooksUniformAtEnds(idx, n, st) == idx[n] - idx[1] = (n - 1) * st
+IsUniform(idx, n, st) == \A k \in 0..(n - 1) : idx[k + 1] = idx[1] + (k * st)
+
 (* ---- the scalar extension operation (C09): F[x]/(x^3 - x - 1), schoolbook product with x^3 = x + 1, x^4 = x^2 + x *)
 Emb(d, v) == IF d.elem = "base" THEN <<v[1], FZero, FZero>> ELSE v
 CAdd(u, v) == <<FA(u[1], v[1]), FA(u[2], v[2]), FA(u[3], v[3])>>
